@@ -31,12 +31,28 @@ func genC03(g gen.G) C03Case {
 	if g.Chance(60) {
 		o.Edits = 0
 	}
+	sweep := g.Chance(50)
+	if sweep {
+		// small worlds, every cursor of one file: ambiguities between neighbouring
+		// items (decided by map iteration order) sit at single offsets
+		o.Schema.Wide = false
+		o.Cfg.HalfTyped = 10
+		o.Cfg.Layout = true
+	}
 	w := g.World(o)
-	return C03Case{
+	c := C03Case{
 		World:   w,
 		Queries: append(GenCalls(g, w, g.Int(6, 12)), wholePathCalls(w)...),
 		History: GenCalls(g, w, g.Int(0, 10)),
 	}
+	if sweep {
+		pi := g.Int(0, len(w.Paths)-1)
+		f := w.Paths[pi].Files[g.Int(0, len(w.Paths[pi].Files)-1)]
+		for _, off := range BoundaryOffsets([]byte(f.Text), 300) {
+			c.Queries = append(c.Queries, Call{Kind: "completion", Path: pi, File: f.Name, Byte: off}, Call{Kind: "hover", Path: pi, File: f.Name, Byte: off})
+		}
+	}
+	return c
 }
 
 func wholePathCalls(w m.WorldM) []Call {
@@ -54,13 +70,33 @@ func wholePathCalls(w m.WorldM) []Call {
 
 // NormResult renders a query outcome canonically. Everything is order
 // sensitive except diagnostics, which are compared as an unordered collection.
-func NormResult(res CallResult) (string, int) {
+func NormResult(res CallResult) (string, int) { return NormResultShift(res, nil) }
+
+// NormResultShift is NormResult with every position passed through shift first.
+func NormResultShift(res CallResult, shift func(hcl.Range) hcl.Range) (string, int) {
+	canon := func(v interface{}) string {
+		if shift == nil {
+			return oracle.Canon(v)
+		}
+		return oracle.CanonShift(v, shift)
+	}
+	normDiags := func(ds hcl.Diagnostics) string {
+		parts := make([]string, 0, len(ds))
+		for _, d := range ds {
+			parts = append(parts, canon(d))
+		}
+		sort.Strings(parts)
+		return "[" + strings.Join(parts, "|") + "]"
+	}
 	if res.Panic != nil {
 		return "PANIC", 0
 	}
 	errS := ""
 	if res.Err != nil {
 		errS = "err:" + res.Err.Error()
+		if shift != nil {
+			errS = fmt.Sprintf("err:%T", res.Err) // messages embed positions
+		}
 	}
 	switch v := res.Val.(type) {
 	case hcl.Diagnostics:
@@ -79,16 +115,7 @@ func NormResult(res CallResult) (string, int) {
 		}
 		return errS + sb.String(), n
 	}
-	return errS + oracle.Canon(res.Val), resultSize(res.Val)
-}
-
-func normDiags(ds hcl.Diagnostics) string {
-	parts := make([]string, 0, len(ds))
-	for _, d := range ds {
-		parts = append(parts, oracle.Canon(d))
-	}
-	sort.Strings(parts)
-	return "[" + strings.Join(parts, "|") + "]"
+	return errS + canon(res.Val), resultSize(res.Val)
 }
 
 // resultSize is the number of top-level elements of a collection-valued result.
